@@ -26,6 +26,13 @@ Failing cleanly:
 * `parse_unready_refused`, `parse_without_generate_refused`, `generate_unready_refused`, `generate_unconfigured_refused`
                                          incompletely configured targets are refused with 141, unknown ones with 120
 * `generate_fails_cleanly_partial`, `generate_glue_without_cpp_counterexample`   domain `readyDom` and its hole
+
+Histories (one `API` object whose generator instances are shared by all contexts made from it; `runReqs`):
+* `history_free`, `runReqs_length`       for any number of contexts and any request sequence (contexts made anew, `parse` and `generate` in
+                                         any interleaving, any request repeated) every answer is the single-shot `parseReady` /
+                                         `generateOutcome` of the requesting context's own sections — an insufficient configuration is
+                                         refused every time —, and a `generate` that runs uses the requesting context's sections only
+* `parse_refusal_names_missing`          the key a refusal of `parse` names is the section of a generator of a configured target that is missing
 -/
 namespace Pydjinni.Sys
 
@@ -1025,6 +1032,310 @@ theorem generate_glue_without_cpp_counterexample :
 example : ∃ cts, parseReady (some ["cpp", "java", "jni", "objc", "objcpp", "cppcli", "yaml"]) = .ok cts
     ∧ ∀ t ∈ ["cpp", "java", "objc", "cppcli", "yaml"], generateOutcome cts [.record, .enum] t = .ok () := by
   refine ⟨targetTable, by decide, by decide⟩
+
+
+/-! ### one `API` object, several contexts, any sequence of requests -/
+
+theorem heldBy_hold (h : Held) (gs : List String) (c : Nat) (g : String) (hg : g ∈ gs) : heldBy (hold h gs c) g = some c := by
+  unfold heldBy hold
+  induction gs with
+  | nil => cases hg
+  | cons x xs ih =>
+    by_cases hx : x = g
+    · subst hx; simp
+    · have : g ∈ xs := by
+        rcases List.mem_cons.mp hg with h1 | h1
+        · exact absurd h1.symm hx
+        · exact h1
+      simp only [List.map_cons, List.cons_append, List.find?_cons]
+      have hne : ((x, c).1 == g) = false := by simpa using hx
+      rw [hne]
+      exact ih this
+
+theorem targetConfigure_error (set : List String) (c : Nat) (d : TargetDef) (h : Held) (k : String)
+    (hk : targetConfigure set c d h = .error k) : ∃ g ∈ d.generators, g ∉ set ∧ k = "generate." ++ g := by
+  unfold targetConfigure at hk
+  split at hk
+  · rename_i g hg
+    have := List.find?_some hg
+    have hm := List.mem_of_find?_eq_some hg
+    cases hk
+    exact ⟨g, hm, by simpa using this, rfl⟩
+  · cases hk
+
+theorem targetConfigure_ok (set : List String) (c : Nat) (d : TargetDef) (h : Held)
+    (hall : ∀ g ∈ d.generators, g ∈ set) : targetConfigure set c d h = .ok (hold h d.generators c) := by
+  unfold targetConfigure
+  have : d.generators.find? (fun g => !set.contains g) = none := by
+    rw [List.find?_eq_none]; intro g hg; simpa using hall g hg
+  rw [this]
+
+/-- what `parse` names when it refuses: the first generator without a section, over the configured targets in registry order -/
+theorem configureAll_named (set : List String) (c : Nat) (ds : List TargetDef) (h : Held) :
+    (configureAll set c ds h).2 = ((ds.flatMap (·.generators)).find? (fun g => !set.contains g)).map ("generate." ++ ·) := by
+  induction ds generalizing h with
+  | nil => rfl
+  | cons d ds ih =>
+    simp only [configureAll, List.flatMap_cons, List.find?_append]
+    unfold targetConfigure
+    cases hf : d.generators.find? (fun g => !set.contains g) with
+    | some g => simp
+    | none => simp [ih]
+
+def Inv (ctxs : List GenSet) (s : ApiState) : Prop :=
+  ∀ c ∈ s.parsed, ∃ set, ctxSet ctxs c = some set ∧ ∀ d ∈ configuredTargets set, ∀ g ∈ d.generators, g ∈ set
+
+theorem parseMissing_none_iff (set : List String) :
+    parseMissing set = none ↔ ∀ d ∈ configuredTargets set, ∀ g ∈ d.generators, g ∈ set := by
+  unfold parseMissing
+  rw [List.find?_eq_none]
+  constructor
+  · intro h d hd g hg
+    have := h g (List.mem_flatMap.mpr ⟨d, hd, hg⟩)
+    simpa using this
+  · intro h g hg
+    obtain ⟨d, hd, hgd⟩ := List.mem_flatMap.mp hg
+    simpa using h d hd g hgd
+
+theorem parseReady_eq (set : List String) :
+    parseReady (some set) = if (parseMissing set).isNone then .ok (configuredTargets set) else .app 141 := by
+  simp only [parseReady]
+  by_cases h : ∀ d ∈ configuredTargets set, ∀ g ∈ d.generators, g ∈ set
+  · have h1 : ((configuredTargets set).all fun t => t.generators.all set.contains) = true := by
+      simp only [List.all_eq_true]; intro d hd g hg; simpa using h d hd g hg
+    have h2 := (parseMissing_none_iff set).mpr h
+    simp [h1, h2]
+  · have h1 : ((configuredTargets set).all fun t => t.generators.all set.contains) = false := by
+      rw [Bool.eq_false_iff]; intro hall
+      apply h
+      simp only [List.all_eq_true] at hall
+      intro d hd g hg; simpa using hall d hd g hg
+    have h2 : parseMissing set ≠ none := fun hn => h ((parseMissing_none_iff set).mp hn)
+    cases hm : parseMissing set with
+    | none => exact absurd hm h2
+    | some g => simp [h1]
+
+/-- `parse` of a context ends the same way whatever happened on the `API` object before: as the single-shot `parseReady` of
+the context's own sections says -/
+theorem parseStep_outcome (ctxs : List GenSet) (c : Nat) (s : ApiState) :
+    (parseStep ctxs c s).1.outcome = some (parseReady (ctxSet ctxs c)).void := by
+  unfold parseStep
+  cases hs : ctxSet ctxs c with
+  | none => rfl
+  | some set =>
+    simp only
+    have hn := configureAll_named set c (configuredTargets set) s.held
+    rw [parseReady_eq]
+    cases hca : configureAll set c (configuredTargets set) s.held with
+    | mk h k =>
+      rw [hca] at hn
+      simp only at hn
+      cases k with
+      | none =>
+        have : parseMissing set = none := by
+          unfold parseMissing
+          cases hf : ((configuredTargets set).flatMap (·.generators)).find? (fun g => !set.contains g) with
+          | none => rfl
+          | some g => rw [hf] at hn; cases hn
+        simp [this, Outcome.void]
+      | some k =>
+        have : (parseMissing set).isNone = false := by
+          unfold parseMissing
+          cases hf : ((configuredTargets set).flatMap (·.generators)).find? (fun g => !set.contains g) with
+          | none => rw [hf] at hn; cases hn
+          | some g => rfl
+        simp [this, Outcome.void]
+
+/-- every refusal of `parse` names a key that is indeed missing: the section of a generator of a target whose own key is set -/
+theorem parse_refusal_names_missing (ctxs : List GenSet) (c : Nat) (s : ApiState) (set : List String)
+    (hset : ctxSet ctxs c = some set) :
+    (parseStep ctxs c s).1.named = (parseMissing set).map ("generate." ++ ·)
+    ∧ ∀ g, parseMissing set = some g → g ∉ set ∧ ∃ d ∈ targetTable, d.key ∈ set ∧ g ∈ d.generators := by
+  constructor
+  · unfold parseStep
+    rw [hset]
+    simp only
+    have hn := configureAll_named set c (configuredTargets set) s.held
+    cases hca : configureAll set c (configuredTargets set) s.held with
+    | mk h k =>
+      rw [hca] at hn
+      simp only at hn
+      cases k with
+      | none => simp only [parseMissing]; rw [← hn]
+      | some k => simp only [parseMissing]; rw [← hn]
+  · intro g hg
+    unfold parseMissing at hg
+    have h1 := List.find?_some hg
+    have h2 := List.mem_of_find?_eq_some hg
+    obtain ⟨d, hd, hgd⟩ := List.mem_flatMap.mp h2
+    simp only [configuredTargets, List.mem_filter] at hd
+    exact ⟨by simpa using h1, d, hd.1, by simpa using hd.2, hgd⟩
+
+theorem parseStep_inv (ctxs : List GenSet) (c : Nat) (s : ApiState) (hinv : Inv ctxs s) : Inv ctxs (parseStep ctxs c s).2 := by
+  unfold parseStep
+  cases hs : ctxSet ctxs c with
+  | none => exact hinv
+  | some set =>
+    simp only
+    have hn := configureAll_named set c (configuredTargets set) s.held
+    cases hca : configureAll set c (configuredTargets set) s.held with
+    | mk h k =>
+      rw [hca] at hn
+      simp only at hn
+      cases k with
+      | some k => exact hinv
+      | none =>
+        intro c' hc'
+        simp only [List.mem_cons] at hc'
+        rcases hc' with rfl | hc'
+        · refine ⟨set, hs, ?_⟩
+          apply (parseMissing_none_iff set).mp
+          unfold parseMissing
+          cases hf : ((configuredTargets set).flatMap (·.generators)).find? (fun g => !set.contains g) with
+          | none => rfl
+          | some g => rw [hf] at hn; cases hn
+        · exact hinv c' hc'
+
+theorem cts_any_cpp (set : List String) : (configuredTargets set).any (fun c => c.key == "cpp") = set.contains "cpp" := by
+  simp [configuredTargets, List.any_filter, targetTable]
+
+theorem find_target (t : String) (d : TargetDef) (h : targetTable.find? (fun d => d.key == t) = some d) :
+    d ∈ targetTable ∧ d.key = t :=
+  ⟨List.mem_of_find?_eq_some h, by simpa using List.find?_some h⟩
+
+/-- `generate` on the `GenerateContext` of a context ends as the single-shot `generateOutcome` of the context's own sections says,
+and when it runs, every generator of the target holds the section of the *requesting* context — whatever other contexts of the
+same `API` object parsed or generated before -/
+theorem generateStep_spec (ctxs : List GenSet) (kinds : List DeclKind) (c : Nat) (t : String) (s : ApiState)
+    (hinv : Inv ctxs s) (hc : c ∈ s.parsed) :
+    ∃ set, ctxSet ctxs c = some set ∧ parseReady (some set) = .ok (configuredTargets set)
+      ∧ (generateStep ctxs kinds c t s).1.outcome = some (generateOutcome (configuredTargets set) kinds t)
+      ∧ ((generateStep ctxs kinds c t s).1.outcome = some (.ok ()) →
+          (generateStep ctxs kinds c t s).1.used ≠ [] ∧ ∀ u ∈ (generateStep ctxs kinds c t s).1.used, u = c) := by
+  obtain ⟨set, hset, hall⟩ := hinv c hc
+  refine ⟨set, hset, ?_, ?_⟩
+  · rw [parseReady_eq, (parseMissing_none_iff set).mpr hall]; rfl
+  have hpc : s.parsed.contains c = true := by simpa using hc
+  unfold generateStep generateOutcome
+  simp only [hpc, hset, Bool.not_true, Bool.false_eq_true, if_false]
+  cases hf : targetTable.find? (fun d => d.key == t) with
+  | none => simp
+  | some d =>
+    obtain ⟨hd, hkey⟩ := find_target t d hf
+    simp only
+    by_cases hst : set.contains t = true
+    · have hmem : d ∈ configuredTargets set := by
+        simp only [configuredTargets, List.mem_filter]; exact ⟨hd, by rw [hkey]; exact hst⟩
+      have hcont : (configuredTargets set).contains d = true := by simpa using hmem
+      rw [targetConfigure_ok set c d s.held (hall d hmem)]
+      simp only [hst, hcont, Bool.not_true, Bool.false_eq_true, if_false, cts_any_cpp]
+      split
+      · simp
+      · refine ⟨rfl, fun _ => ?_⟩
+        have hne : d.generators ≠ [] := by
+          have : ∀ d ∈ targetTable, d.generators ≠ [] := by decide
+          exact this d hd
+        have hmap : d.generators.filterMap (heldBy (hold s.held d.generators c)) = d.generators.map (fun _ => c) := by
+          have : ∀ l : List String, (∀ g ∈ l, g ∈ d.generators) →
+              l.filterMap (heldBy (hold s.held d.generators c)) = l.map (fun _ => c) := by
+            intro l
+            induction l with
+            | nil => intro _; rfl
+            | cons g gs ih =>
+              intro hsub
+              rw [List.filterMap_cons, heldBy_hold s.held d.generators c g (hsub g (List.mem_cons_self ..))]
+              simp only [List.map_cons]
+              rw [ih (fun g' hg' => hsub g' (List.mem_cons_of_mem _ hg'))]
+          exact this d.generators (fun _ h => h)
+        rw [hmap]
+        constructor
+        · cases hg : d.generators with
+          | nil => exact absurd hg hne
+          | cons => simp
+        · intro u hu
+          obtain ⟨_, _, rfl⟩ := List.mem_map.mp hu
+          rfl
+    · have hst' : set.contains t = false := by simpa using hst
+      have hnmem : (configuredTargets set).contains d = false := by
+        rw [Bool.eq_false_iff]; intro hcon
+        have : d ∈ configuredTargets set := by simpa using hcon
+        simp only [configuredTargets, List.mem_filter] at this
+        rw [hkey] at this
+        exact hst this.2
+      have hts : t ∉ set := by simpa using hst'
+      have hnm : d ∉ configuredTargets set := by simpa using hnmem
+      simp [hts, hnm]
+
+theorem generateStep_skipped (ctxs : List GenSet) (kinds : List DeclKind) (c : Nat) (t : String) (s : ApiState)
+    (hc : c ∉ s.parsed) : (generateStep ctxs kinds c t s).1.outcome = none := by
+  simp [generateStep, hc]
+
+theorem generateStep_parsed (ctxs : List GenSet) (kinds : List DeclKind) (c : Nat) (t : String) (s : ApiState) :
+    (generateStep ctxs kinds c t s).2.parsed = s.parsed := by
+  unfold generateStep
+  repeat' split
+  all_goals rfl
+
+theorem step_inv (ctxs : List GenSet) (kinds : List DeclKind) (r : Req) (s : ApiState) (hinv : Inv ctxs s) :
+    Inv ctxs (step ctxs kinds r s).2 := by
+  cases r with
+  | configure c =>
+    intro c' hc'
+    simp only [step, List.mem_filter] at hc'
+    exact hinv c' hc'.1
+  | parse c => exact parseStep_inv ctxs c s hinv
+  | generate c t =>
+    intro c' hc'
+    simp only [step, generateStep_parsed] at hc'
+    exact hinv c' hc'
+
+/-- what every answer of a history has to be: that of the single request on a fresh `API` object -/
+def answerSpec (ctxs : List GenSet) (kinds : List DeclKind) (r : Req) (a : Answer) : Prop :=
+  match r with
+  | .configure _ => a.outcome = none
+  | .parse c => a.outcome = some (parseReady (ctxSet ctxs c)).void
+  | .generate c t => a.outcome = none ∨ ∃ set, ctxSet ctxs c = some set ∧ parseReady (some set) = .ok (configuredTargets set)
+      ∧ a.outcome = some (generateOutcome (configuredTargets set) kinds t)
+      ∧ (a.outcome = some (.ok ()) → a.used ≠ [] ∧ ∀ u ∈ a.used, u = c)
+
+theorem runReqs_length (ctxs : List GenSet) (kinds : List DeclKind) (reqs : List Req) (s : ApiState) :
+    (runReqs ctxs kinds reqs s).length = reqs.length := by
+  induction reqs generalizing s with
+  | nil => rfl
+  | cons r rs ih => simp [runReqs, ih]
+
+theorem history_free_from (ctxs : List GenSet) (kinds : List DeclKind) (reqs : List Req) (s : ApiState) (hinv : Inv ctxs s) :
+    ∀ p ∈ reqs.zip (runReqs ctxs kinds reqs s), answerSpec ctxs kinds p.1 p.2 := by
+  induction reqs generalizing s with
+  | nil => intro p hp; cases hp
+  | cons r rs ih =>
+    intro p hp
+    simp only [runReqs, List.zip_cons_cons, List.mem_cons] at hp
+    rcases hp with rfl | hp
+    · cases r with
+      | configure c => rfl
+      | parse c => exact parseStep_outcome ctxs c s
+      | generate c t =>
+        by_cases hc : c ∈ s.parsed
+        · exact Or.inr (generateStep_spec ctxs kinds c t s hinv hc)
+        · exact Or.inl (generateStep_skipped ctxs kinds c t s hc)
+    · exact ih _ (step_inv ctxs kinds r s hinv) p hp
+
+/-- **histories do not matter**: on one `API` object, for any number of contexts and any sequence of requests (contexts made
+anew, parsed and asked to generate in any interleaving, any request repeated any number of times), every request is answered
+(`runReqs_length`), every `parse` ends as `parseReady` of that context's own sections says, every `generate` as `generateOutcome`
+of them says — in particular an insufficient configuration is refused *every* time —, and a `generate` that runs uses the
+requesting context's sections only -/
+theorem history_free (ctxs : List GenSet) (kinds : List DeclKind) (reqs : List Req) :
+    ∀ p ∈ reqs.zip (runReqs ctxs kinds reqs {}), answerSpec ctxs kinds p.1 p.2 :=
+  history_free_from ctxs kinds reqs {} (by intro c hc; cases hc)
+
+/-- the same request repeated is answered the same way (java without jni: refused twice, naming `generate.jni` twice; a complete
+context of the same object in between changes nothing) -/
+example : (runReqs [some ["java"], some ["cpp", "java", "jni"]] [.record] [.parse 0, .parse 0, .parse 1, .generate 1 "java", .parse 0, .generate 0 "java"] {}).map
+      (fun a => (a.outcome, a.named, a.used))
+    = [(some (.app 141), some "generate.jni", []), (some (.app 141), some "generate.jni", []), (some (.ok ()), none, []),
+       (some (.ok ()), none, [1, 1]), (some (.app 141), some "generate.jni", []), (none, none, [])] := by decide
 
 
 /-! ### the hypotheses are satisfiable (evaluated by the compiled model) -/
